@@ -610,12 +610,12 @@ def gen_tikz_lean(data):
             w(f"theorem {n}_holes : Template.holesOK {n} = true := by decide +kernel")
         if t["role"] == "statement":
             w(f"theorem {n}_terminated : Template.terminated {n} = true := by decide +kernel")
-            w(f"theorem {n}_oneline : Template.noNewline {n} = true := by decide +kernel")
     w("")
     w("theorem statements_balanced : statements.all (fun s => s.2.litBalanced) = true := by decide +kernel")
     w("theorem statements_holes : statements.all (fun s => s.2.holesOK) = true := by decide +kernel")
     w("theorem statements_terminated : statements.all (fun s => s.2.terminated) = true := by decide +kernel")
-    w("theorem statements_oneline : statements.all (fun s => s.2.noNewline) = true := by decide +kernel")
+    # (no "one statement per line" obligation: the property does not speak of lines, no theorem used it, and a
+    #  statement harmlessly written across two lines must not break an obligation)
     w("theorem statements_layers : statements.all (fun s => decide (s.1 < layerNames.length)) = true := by decide +kernel")
     w("theorem boxes_balanced : boxes.all (fun t => t.litBalanced && t.holesOK) = true := by decide +kernel")
     w("")
@@ -644,6 +644,26 @@ def gen_tikz_lean(data):
     w("    tmpl_definecolor = [.lit (definecolorHead ++ colorPrefix), .hole .index, .lit definecolorMid,")
     w("                        .hole .html, .lit ['}']] := by decide +kernel")
     w("theorem layer_comment_shape : tmpl_layer_comment = [.lit ['%', ' '], .hole (.kw layerNames)] := by decide +kernel")
+    # What Model/TikzDraw.lean (`stmtOf`, `C15_draw_stmtOf`) and the C13 drawing theorems READ the statement indices
+    # as: 3/8/10/13 event nodes of the four kinds, 5 the loss marker, 12 the transfer arrow, every other one a plain
+    # path.  Without these obligations "one event node per object node, one loss marker per loss, one arrow per
+    # transfer" is a statement about indices only: swapping `speciation=` and `duplication=` in the source, or
+    # drawing the loss marker as a `\\coordinate`, leaves every theorem standing.
+    heads = {3: r"\node[extant gene=", 5: r"\node[loss=", 8: r"\node[speciation=", 10: r"\node[duplication=",
+             12: r"\path[transfer branch=", 13: r"\node[horizontal gene transfer="}
+    stmt_names = [names[t["name"]] for t in data["templates"] if t["role"] == "statement"]
+    conj = []
+    for k, n in enumerate(stmt_names):
+        if k in heads:
+            conj.append(f"Template.startsWith {n} {lean_chars(heads[k])} = true")
+        else:
+            conj.append(f"Template.startsWith {n} {lean_chars(chr(92) + 'path[')} = true")
+            conj.append(f"Template.startsWith {n} {lean_chars(heads[12])} = false")
+    w("/-- the statement kinds `Model/TikzDraw.lean` reads off the statement indices are those of the source -/")
+    w("theorem statement_heads :")
+    w("    " + " ∧\n    ".join(conj) + " := by decide +kernel")
+    w("theorem statement_count : statements.length = " + str(len(heads) + 8) + " := by decide +kernel")
+    w("")
     w("theorem defs_start :")
     w("    Template.startsWith tmpl_defs_vertical ['\\\\', 'c'] = true ∧")
     w("    Template.startsWith tmpl_defs_horizontal ['\\\\', 'c'] = true := by decide +kernel")
@@ -674,6 +694,9 @@ GENERATORS = {
 from harness.translate_cli import regenerate_cli  # noqa: E402
 
 GENERATORS.update({"C11": lambda: regenerate_cli("C11"), "C12": lambda: regenerate_cli("C12")})
+# Properties/C13Draw*.lean are theorems about Model/TikzDraw.lean, i.e. about Generated/TikzTemplates.lean: `./check C13`
+# must regenerate it too (otherwise it proves them about whatever the last C15 run generated)
+GENERATORS["C13"] = regenerate_c15
 
 
 def regenerate(prop):
